@@ -14,6 +14,8 @@ class Contract:
         # raises: {ExcName: cond-in-pre-state or None}.  With a condition: raised IFF cond (both directions).
         self.raises: dict[str, str | None] = kw.pop("raises", {})
         self.on_raise: dict[str, list[str]] = kw.pop("on_raise", {})
+        # attributes of the raised exception as seen by callers: {Exc: {attr: expr-in-pre-state}}
+        self.raise_attrs: dict[str, dict[str, str]] = kw.pop("raise_attrs", {})
         self.modifies: list[str] = kw.pop("modifies", [])
         self.loops: dict[int, dict] = kw.pop("loops", {})
         self.inline: bool = kw.pop("inline", False)
@@ -53,6 +55,7 @@ class Registry:
         self.consts: dict[str, object] = {}
         self.ghost: dict[str, dict[str, str]] = {}
         self.c_contracts: dict[str, dict] = {}
+        self.extern_modules: dict[str, str] = {}
 
     # ---- declaration API used by sidecar files
     def contract(self, key, **kw):
@@ -74,6 +77,11 @@ class Registry:
 
     def invariant(self, cls, clauses):
         self.invariants.setdefault(cls, []).extend(clauses)
+
+    def extern_module(self, rel, src):
+        """model of a module that is not Python source in the repository (C extension, third party): class and
+        function signatures only; every method needs a (trusted) contract."""
+        self.extern_modules[rel] = _dedent(src)
 
     def c_contract(self, key, **kw):
         """contract of a C function: key '<file>::<function>', setup(m) builds the symbolic pre-state and returns the
